@@ -8,6 +8,8 @@ import ParryModel.C11.Theorems6
 import ParryModel.C11.Theorems7
 import ParryModel.C11.Theorems8
 import ParryModel.C11.Theorems9
+import ParryModel.C11.Theorems10
+import ParryModel.C11.Theorems11
 /-!
 # C11 property theorems: TriMesh derived data always match the buffers
 
@@ -636,19 +638,25 @@ theorem scaledW_nonuniform_not_coherent :
       ¬ Coherent true (scaledW true stretchX id s0) :=
   ⟨_, rfl, by decide⟩
 
-/-- with the fix both histories end coherent (instances of `history2_coherent`), the QBVH holds the triangles of the
-scaled mesh (instance of `history2_qcoherent`), and the pseudo-normals of the mirrored mesh are the opposite ones -/
+/-- with the fixes both histories end coherent (instances of `history2_coherent`), the QBVH holds the boxes of the
+triangles of the scaled mesh (instance of `history2_qcoherent`).  Both meshes are `ORIENTED` and the scale mirrors, so
+`scaled` reverses the winding (commit 1a6b99a): the index buffer is `[b, a, c]` and the pseudo-normals of the mirrored mesh
+point to the same side as before the scale (`[1, 2, 2, 1]`, the doubled ones after the stretch); a `reverse` afterwards
+negates them. -/
 theorem scaled_fixed_witnesses :
-    ∃ s1 s2 : Mesh Pt Int,
+    ∃ s1 s2 s3 : Mesh Pt Int,
       (match withFlags true [(0,0),(1,0),(0,1),(1,1)] [⟨0,1,2⟩, ⟨1,3,2⟩] (fl 8) with
-        | .ok s0 => run2 true s0 [.scale mirrorX id, .base .reverse] | _ => none) = some s1 ∧
+        | .ok s0 => run2 true s0 [.scale mirrorX id true] | _ => none) = some s1 ∧
       (match withFlags true [(0,0),(1,0),(0,1),(1,1)] [⟨0,1,2⟩, ⟨1,3,2⟩] (fl 11) with
-        | .ok s0 => run2 true s0 [.scale stretchX id, .base (.setFlags (fl 27)), .scale mirrorX id] | _ => none) = some s2 ∧
-      Coherent true s1 ∧ Coherent true s2 ∧
-      s1.vertices = [(0,0),(-1,0),(0,1),(-1,1)] ∧ s1.pn.map (·.vertices) = some [1, 2, 2, 1] ∧
-      s2.vertices = [(0,0),(-2,0),(0,1),(-2,1)] ∧ s2.pn.map (·.vertices) = some [-2, -4, -4, -2] ∧
-      s2.qbvh = allCoords s2.vertices s2.indices :=
-  ⟨_, _, rfl, rfl, by decide, by decide, by decide, by decide, by decide, by decide, by decide⟩
+        | .ok s0 => run2 true s0 [.scale stretchX id false, .base (.setFlags (fl 27)), .scale mirrorX id true] | _ => none) = some s2 ∧
+      run2 true s1 [.base .reverse] = some s3 ∧
+      Coherent true s1 ∧ Coherent true s2 ∧ Coherent true s3 ∧
+      s1.vertices = [(0,0),(-1,0),(0,1),(-1,1)] ∧ s1.indices = [⟨1,0,2⟩, ⟨3,1,2⟩] ∧
+      s1.pn.map (·.vertices) = some [1, 2, 2, 1] ∧ s3.pn.map (·.vertices) = some [-1, -2, -2, -1] ∧
+      s2.vertices = [(0,0),(-2,0),(0,1),(-2,1)] ∧ s2.pn.map (·.vertices) = some [2, 4, 4, 2] ∧
+      s2.qbvh.map (·.map planarBox) = (allCoords s2.vertices s2.indices).map (·.map planarBox) :=
+  ⟨_, _, _, rfl, rfl, rfl, by decide, by decide, by decide, by decide, by decide, by decide, by decide, by decide, by decide,
+    by decide⟩
 
 /-- the planar box satisfies the box law for the mirror (non-vacuity of `Op2BoxLawful` / `scaled_qcoherent`): mirroring
 the box `[x0, x1] × [y0, y1]` to `[-x1, -x0] × [y0, y1]` gives the box of the mirrored triangle -/
